@@ -116,6 +116,51 @@ def victim(path, stage, ready):
         time.sleep(60)
 
 
+def exec_holder(path, ready_fd):
+    # a daemon-like holder: stdin closed, acquires, starts a long-lived child by plain fork+exec, reports
+    os.close(0)
+    lk = FL.FileLock(path)
+    lk.acquire()
+    pid = os.spawnlp(os.P_NOWAIT, 'sleep', 'sleep', '30')
+    os.write(ready_fd, str(pid).encode())
+    time.sleep(60)
+
+
+def crash_with_execd_child(tmp):
+    """C13: the holder dies while an unrelated child it exec'd lives on: the lock must not survive in the child
+    (descriptors must be close-on-exec)."""
+    path = os.path.join(tmp, 'lock3')
+    r, w = os.pipe()
+    os.set_inheritable(w, True)
+    ctx = mp.get_context('fork')
+    p = ctx.Process(target=exec_holder, args=(path, w))
+    p.start()
+    os.close(w)
+    import select
+    rl, _, _ = select.select([r], [], [], 20)
+    if not rl:
+        p.kill()
+        return []
+    child = int(os.read(r, 32).decode() or 0)
+    os.close(r)
+    os.kill(p.pid, signal.SIGKILL)
+    p.join(10)
+    a = FL.FileLock(path)
+    got = a.acquire(timeout=3)
+    out = []
+    if not got:
+        out.append('holder SIGKILLed while a child it had exec\'d (sleep) lives on: lock stuck, acquire(timeout=3) failed '
+                   '(the lock descriptor was inherited across exec)')
+    else:
+        a.release()
+    try:
+        os.kill(child, signal.SIGKILL)
+        os.waitpid(child, os.WNOHANG)
+    except Exception:
+        pass
+    return out
+
+
 def crash(tmp, ks):
     problems = []
     ctx = mp.get_context('fork')
@@ -164,6 +209,8 @@ def main():
         pr = exclusion(nproc, rounds, tmp)
         if not pr:
             pr = crash(tmp, ks)
+        if not pr:
+            pr = crash_with_execd_child(tmp)
     finally:
         import shutil
         shutil.rmtree(tmp, ignore_errors=True)
